@@ -18,7 +18,7 @@ ASSUMPTIONS = [
     "back-off: integer factory parameters as in the signature; max_exponent capped at 20000 for cost",
 ]
 EVAL_COUNTER = "evaluations"
-REQUIRED = ["backoff_evals", "next_evals", "overdue_evals", "delay_until_ahead", "now_before_base", "now_on_grid", "with_scheduled_time"]
+REQUIRED = ["backoff_evals", "next_evals", "overdue_evals", "delay_until_ahead", "now_before_base", "now_on_grid", "with_scheduled_time", "stored_bucket_probes"]
 
 US = timedelta(microseconds=1)
 
@@ -31,6 +31,8 @@ def gen_cases(tier, seed):
         cases.append({"kind": "next", "n": n, "seed": seed * 1000 + 100 + i})
         cases.append({"kind": "overdue", "n": n // 2, "seed": seed * 1000 + 200 + i})
     cases.append({"kind": "backoff_grid"})
+    for i in range(3 if tier == "quick" else 12):
+        cases.append({"kind": "bucket_store", "seed": seed * 1000 + 300 + i})
     cases.append({"kind": "next_grid"})
     return cases
 
@@ -215,6 +217,53 @@ def check_job_overdue(ts, ttl, now, out, stats, fps):
         out.append(_viol("overdue_predicate", "Job", f"Job: ts={ts} ttl={ttl} now={now}: is_overdue={got}, expected {expected}"))
 
 
+async def bucket_store_scenario(loop, case, out, stats, fps):
+    """Buckets in a store that expires keys itself (Redis): what the broker still serves is what `now > timestamp + ttl`
+    says, for buckets stored long after their timestamp as well (whole-second server clock: 1 s tolerance)."""
+    import asyncio
+
+    from rv.wl import World
+
+    rnd = random.Random(case["seed"])
+    w = World(loop, "mem", converter="basic", seed=case["seed"], bucket_kind="redis")
+    try:
+        await w.open()
+        for broker, label in ((w.conn.args_bucket_broker, "args"), (w.conn.results_bucket_broker, "result")):
+            B = broker.BUCKET_CLASS
+            plans = []
+            now = datetime.now()
+            for i in range(6):
+                ttl = timedelta(seconds=rnd.choice([30, 600, 3600, 90000]))
+                age = rnd.choice([timedelta(0), ttl * 0.5, ttl * 0.9, ttl - timedelta(seconds=5), ttl + timedelta(seconds=5), ttl * 3])
+                kw = dict(data="x", timestamp=now - age, ttl=ttl)
+                if label == "result":
+                    kw.update(started_when=1, finished_when=2)
+                b = B(**kw)
+                id_ = f"{label}-{i}"
+                await broker.store_bucket(id_, b)
+                plans.append((id_, b))
+            for step in (0.0, 6.0, 40.0, 700.0, 4000.0):
+                if step:
+                    await w.rig.quiesce_wire()
+                    loop.jump(step)
+                    await asyncio.sleep(0.01)
+                t = datetime.now()
+                for id_, b in plans:
+                    got = await broker.get_bucket(id_)
+                    exp = b.timestamp + b.ttl
+                    stats["evaluations"] += 1
+                    stats["overdue_evals"] += 1
+                    stats["stored_bucket_probes"] += 1
+                    cls = "long-expired" if t > exp + timedelta(seconds=1) else ("live" if t < exp - timedelta(seconds=1) else "edge")
+                    fps.add(f"bucket_store/{label}/{cls}/{'aged' if b.timestamp < now else 'fresh'}")
+                    if got is not None and t > exp + timedelta(seconds=1):
+                        out.append(_viol("overdue_predicate", f"RedisBucketBroker/{label}/served-after-expiry", f"bucket timestamp={b.timestamp} ttl={b.ttl} (stored at {now}) is still served at {t}, {t - exp} after timestamp + ttl"))
+                    if got is None and t < exp - timedelta(seconds=1):
+                        out.append(_viol("overdue_predicate", f"RedisBucketBroker/{label}/dropped-before-expiry", f"bucket timestamp={b.timestamp} ttl={b.ttl} is gone at {t}, {exp - t} before timestamp + ttl"))
+    finally:
+        await w.close()
+
+
 def run_case(case):
     import collections
 
@@ -232,6 +281,12 @@ def run_case(case):
             ns = sorted({1, 2, 3, mexp - 1 if mexp > 1 else 1, mexp, mexp + 1, 10**6, 2**31, 10**9}
                         | {rnd.randint(1, 100) for _ in range(15)} | {rnd.randint(1, 10**6) for _ in range(10)})
             check_backoff((mn, mx, mult, mexp), ns, out, stats, fps)
+    elif kind == "bucket_store":
+        from rv.sim import loop as vl
+
+        res = vl.run(lambda loop: bucket_store_scenario(loop, case, out, stats, fps), max_steps=2_000_000, seed=case["seed"])
+        if res.exc is not None:
+            out.append(_viol("next_raises", "bucket_store", f"{type(res.exc).__name__}: {res.exc}"))
     elif kind == "backoff_grid":
         check_backoff((10, 86400, 5, 15), list(range(1, 4000)), out, stats, fps)
         for mn, mx in [(1, 1), (1, 10**9), (10**9, 10**9), (7, 8)]:
